@@ -69,6 +69,13 @@ def mc_plan(tier):
                          dict(base, Prefix=PREFIXES["oneseg"], MaxLen=3 + deep, RewindSet=rew, TruncSet=[0, 64, 160],
                               WithClear=True, Backend="vec", Emit=True, FixedRewind=fixed_rewind()),
                          "emit_ctl", layout))
+    # close + reopen as a call: every reachable (cursor, free list, discarded, minimum segment size) is closed and reopened
+    for kind in ["opt", "pes"]:
+        for pname in ["empty", "oneseg"]:
+            plan.append(("reo_unify_%s_%s" % (kind, pname),
+                         dict(Kind=kind, Unify=True, Reserved=0, Cap=127, Backend="file", ByteSizes=[0, 16, 40], TypeSet=[(8, 8)],
+                              AlignedSet=[], MinSegSet=[8, 24], IncSet=[3], Prefix=PREFIXES[pname], MaxLen=4 + deep,
+                              WithReopen=True, Emit=True), "emit_reo", "unify"))
     return plan
 
 
@@ -111,8 +118,7 @@ def _mc_one(item):
     shutil.rmtree(wd, ignore_errors=True)
     if st is None:
         raise ToolError("TLC did not finish configuration %s: %s" % (name, out[-1500:]))
-    with open(cfile, "w") as f:
-        json.dump(res, f)
+    rv.dump_json_atomic(cfile, res)
     return res
 
 
@@ -330,10 +336,23 @@ def suite_sizes(tier, seed):
     return drivers
 
 
-def suite_reopen(tier, seed):
+def suite_reopen(tier, seed, mc_results=()):
     """C05 / C09: file-backed arenas closed and reopened (map_mut, map_copy, map, map_copy_read_only) between histories."""
     rng = random.Random(seed + 21)
     drivers = []
+    # TLC edge cover of the model with reopen in the menu: each driver additionally reopened with every variant at the end
+    for r in mc_results:
+        if r["mode"] != "emit_reo" or "drivers" not in r:
+            continue
+        ds = r["drivers"]
+        lim = 3000 if tier == "thorough" else 700
+        if len(ds) > lim:
+            ds = sorted(ds, key=len)[:lim // 2] + rng.sample(ds, lim // 2)
+        for i, ops in enumerate(ds):
+            tail = [{"k": "reopen", "variant": ["map_copy", "map", "map_copy_ro", "map_mut"][i % 4], "cap": 0, "flush": False, "create": False},
+                    {"k": "reopen", "variant": "map_mut", "cap": 0, "flush": False, "create": False}, AB(8)]
+            cfg = cfg_for(r["layout"], r["params"]["Kind"], "file", cap=r["params"]["Cap"], minseg=r["params"]["MinSeg0"])
+            drivers.append({"id": "mc:%s:%d" % (r["name"], i), "cfg": cfg, "ops": list(ops) + tail})
     n = 160 if tier == "quick" else 1500
     for i in range(n):
         flavors = [["sync", "file"], ["unsync", "file"]]
@@ -383,7 +402,7 @@ def suite_ro_mutators(tier, seed):
 
 
 SUITES = {
-    "reopen": lambda mc, tier, seed: suite_reopen(tier, seed),
+    "reopen": lambda mc, tier, seed: suite_reopen(tier, seed, mc),
     "ro": lambda mc, tier, seed: suite_ro_mutators(tier, seed),
     "core": lambda mc, tier, seed: suite_core(mc, tier, seed),
     "ctl": lambda mc, tier, seed: suite_ctl(mc, tier, seed),
@@ -474,8 +493,7 @@ def run_suite(name, tier, seed, mc_results, profile="dev"):
            "viol_drivers": {v["driver"]: by_id.get(v["driver"]) for v in viol[:50]}}
     log("suite %s (%s): %d drivers, %d events, %d VIOL, %d DRIFT, harness %.1fs, validation %.1fs" % (
         name, profile, len(drivers), prop["events"], len(viol), len(drift), t_h, t_v))
-    with open(cfile, "w") as f:
-        json.dump(res, f)
+    rv.dump_json_atomic(cfile, res)
     return res
 
 
